@@ -71,7 +71,14 @@ C15Http(pr, q, e) ==
     [C15Scen(pr, q, e, <<>>, Orders1, "none") EXCEPT !.id = "C15/http/" \o pr[1] \o pr[2] \o "/" \o ToString(q) \o "-" \o ToString(e), !.label = "http/" \o pr[1] \o "/q" \o ToString(q) \o "e" \o ToString(e),
         !.run.via = "http",
         !.run.query = "target=" \o T4 \o "&protocol=" \o pr[1] \o "&tcp-method=" \o pr[2] \o "&port=443&max-ttl=4&timeout=300&traceroute-queries=" \o ToString(q) \o "&e2e-queries=" \o ToString(e)]
-C15All(u) == { C15Http(pr, qe[1], qe[2]) : pr \in {<<"udp", "", FALSE>>, <<"tcp", "syn", FALSE>>}, qe \in {<<1, 0>>, <<0, 1>>, <<0, 2>>, <<2, 1>>} }
+\* C14: three concurrent runs over a TTL range beyond the default 30 towards a silent target (every probe up to the last TTL is
+\* built and sent): per-run buffers only
+C14Long(pr, mx) ==
+    [C15Scen(pr, 3, 0, <<>>, Orders1, "none") EXCEPT !.id = "C14/long/" \o pr[1] \o pr[2] \o (IF pr[3] THEN "6" ELSE "4") \o "/" \o ToString(mx),
+        !.label = "request/" \o pr[1] \o (IF pr[3] THEN "6" ELSE "4") \o "/ttl_range_beyond_default/silent_target",
+        !.run.max_ttl = mx, !.path = PathOf([t \in {1} |-> <<>>])]
+C14LongAll == { C14Long(pr, mx) : pr \in Protos, mx \in {40, 64} }
+C15All(u) == C14LongAll \cup { C15Http(pr, qe[1], qe[2]) : pr \in {<<"udp", "", FALSE>>, <<"tcp", "syn", FALSE>>}, qe \in {<<1, 0>>, <<0, 1>>, <<0, 2>>, <<2, 1>>} }
              \* counts beyond one byte
              \cup { C15Http(<<"udp", "", FALSE>>, 0, 260) } \cup { C15Many(pr) : pr \in {<<"udp", "", FALSE>>, <<"icmp", "", FALSE>>} } \cup { C15ManyHttp(pr) : pr \in {<<"udp", "", FALSE>>, <<"icmp", "", FALSE>>} } \cup { C15Cancel(pr, e, c) : pr \in {<<"udp", "", FALSE>>, <<"tcp", "syn", FALSE>>, <<"udp", "", TRUE>>}, e \in {2, 4}, c \in {100000, 450000} } \cup { C15Scen(pr, qe[1], qe[2], fs, ord, pub) :
                  pr \in Protos, qe \in {<<1, 0>>, <<3, 0>>, <<0, 2>>, <<2, 3>>, <<3, 1>>}, fs \in FaultSets(4), ord \in Orders, pub \in {"none", "ok", "fail"} }
@@ -295,6 +302,11 @@ S01All(u) ==
 C19Hist(name, w6) ==
     [C19Scen(<<"udp", "", w6>>, 1, 3, 0, name, "host") EXCEPT !.id = @ \o "/after_other_family", !.label = @ \o "/after_other_family"]
     @@ [before |-> <<[Run("udp", "", ~w6, 1, 3, 1, 0) EXCEPT !.hostname = name, !.timeout_ms = 120, !.delay_ms = 1]>>]
+\* C19: the same NAME was traced a moment ago with another protocol / another port (ICMP resolves a name without a port of its
+\* own): the new request goes to ITS port
+C19HistName(pr, port, bpr, bport) ==
+    [C19Scen(pr, 1, 3, port, "four.test", "host") EXCEPT !.id = @ \o "/after_" \o bpr[1] \o ToString(bport), !.label = @ \o "/name_traced_before_with_other_port"]
+    @@ [before |-> <<[Run(bpr[1], bpr[2], FALSE, 1, 3, 1, 0) EXCEPT !.hostname = "four.test", !.port = bport, !.timeout_ms = 120, !.delay_ms = 1]>>]
 \* C20: prefer_sack towards a SACK-capable port, after a closed port of the same host made an earlier SACK attempt impossible
 C20Hist(m) ==
     [C20Scen(m, "sack_ok", "none", 0) EXCEPT !.id = @ \o "/after_closed_port", !.label = @ \o "/after_closed_port"]
@@ -352,7 +364,9 @@ C06Req(pr, d, tmo) ==
 C06ReqAll(u) == { C06Req(pr, dt[1], dt[2]) : pr \in {<<"udp", "", FALSE>>, <<"icmp", "", TRUE>>, <<"tcp", "syn", FALSE>>}, dt \in {<<100, 40>>, <<300, 10>>, <<50, 300>>} }
 HistAll(u) == { C19Conc(l) : l \in {0, 20000, 60000} } \cup { C19Port(80, 443), C19Port(443, 80), C19Port(80, 0) }
               \cup { C01Repeat(pr) : pr \in {<<"udp", "", FALSE>>, <<"icmp", "", FALSE>>, <<"tcp", "syn", FALSE>>} }
-              \cup { C19Hist(n, w) : n \in {"dual46.test", "dual64.test"}, w \in BOOLEAN } \cup { C20Hist(m) : m \in {"prefer_sack", "sack"} }
+              \cup { C19Hist(n, w) : n \in {"dual46.test", "dual64.test"}, w \in BOOLEAN }
+              \cup { C19HistName(<<"udp", "", FALSE>>, 0, <<"icmp", "", FALSE>>, 0), C19HistName(<<"udp", "", FALSE>>, 40000, <<"udp", "", FALSE>>, 0),
+                     C19HistName(<<"tcp", "syn", FALSE>>, 443, <<"icmp", "", FALSE>>, 0), C19HistName(<<"tcp", "syn", FALSE>>, 8443, <<"tcp", "syn", FALSE>>, 443) } \cup { C20Hist(m) : m \in {"prefer_sack", "sack"} }
               \cup { C16Same(pr, n, l) : pr \in {<<"udp", "", FALSE>>, <<"icmp", "", FALSE>>}, n \in {1, 3}, l \in {0, 20000} }
               \cup { C16Hist(b) : b \in {1, 40, 300} } \cup { C17Conc(pr, l) : pr \in {<<"icmp", "", FALSE>>, <<"udp", "", FALSE>>}, l \in {0, 30000, 300000} }
 
